@@ -656,13 +656,16 @@ func (in *Interp) callFunction(fn *ssa.Function, args []Value, fv []Value) Value
 func (in *Interp) run(fr *Frame) Value {
 	b := fr.fn.Blocks[0]
 	bound := in.eng.cfg.unwind
+	if in.p.unwind > bound {
+		bound = in.p.unwind // stated by the harness (rt.Unwind)
+	}
 	if in.eng.isHarnessFn(fr.fn) {
 		bound = 100000 // harness loops are bounded by construction (concrete skeleton parameters)
 	}
 	for {
 		fr.visits[b.Index]++
 		if fr.visits[b.Index] > bound {
-			in.p.abort("unwind", fmt.Sprintf("loop bound %d exceeded in %s block %d", in.eng.cfg.unwind, fr.fn.String(), b.Index))
+			in.p.abort("unwind", fmt.Sprintf("loop bound %d exceeded in %s block %d", bound, fr.fn.String(), b.Index))
 		}
 		var next *ssa.BasicBlock
 		for _, ins := range b.Instrs {
